@@ -1219,6 +1219,10 @@ func (ctx *RenderContext) getItem(container, index interface{}) (interface{}, er
 			keyType := v.Type().Key()
 			indexValue := reflect.ValueOf(index)
 
+			if !indexValue.IsValid() {
+				return nil, nil // A nil key is in no map
+			}
+
 			if indexValue.Type().ConvertibleTo(keyType) {
 				mapKey = indexValue.Convert(keyType)
 			} else {
